@@ -329,6 +329,13 @@ func runCases(f lib.Flags) error {
 			cf.SetClass(j.idx, class)
 			cf.Count("class_join-key-null")
 		}
+		if j.feat["agg_over_outer_join"] {
+			// SUM/MAX over a column an outer join may pad with NULL fails at run time (type assertion); when the
+			// optimizer prunes that aggregate as unused only the unoptimized query fails (findings/C04.txt)
+			class = "agg-over-outer-join"
+			cf.SetClass(j.idx, class)
+			cf.Count("class_agg-over-outer-join")
+		}
 		describe := func(what string) string {
 			return fmt.Sprintf("%s; query: %s; db: %s; optimized: %d rows %v; unoptimized: %d rows %v; stderr(opt): %s; stderr(raw): %s",
 				what, j.query, filepath.Base(j.db.dir), len(j.opt.rows), head(j.opt.rows), len(j.raw.rows), head(j.raw.rows), firstLine(j.opt.stderr), firstLine(j.raw.stderr))
@@ -340,7 +347,7 @@ func runCases(f lib.Flags) error {
 			cf.Count("cli_crash")
 			cf.Violation(j.idx, describe(fmt.Sprintf("the CLI crashed (optimized: %v, unoptimized: %v)", j.opt.crashed, j.raw.crashed)), "")
 		case j.opt.failed != j.raw.failed:
-			cf.Violation(j.idx, describe("the query fails in one mode only"), "")
+			cf.Violation(j.idx, describe("the query fails in one mode only"), class)
 		case j.opt.failed && j.raw.failed:
 			cf.Count("cli_error_in_both_modes")
 		case !sameRows(j.opt.rows, j.raw.rows):
